@@ -907,3 +907,24 @@ package keeper
 //@   ensures[C17.DeployStakingContract_whitelisted_only] err == nil ==> (old(cpcParamsStored(kvHas[kvId(layer(sdk.UnwrapSDKContext(goCtx)), payload(k.Keeper.storeKey))], kvVal[kvId(layer(sdk.UnwrapSDKContext(goCtx)), payload(k.Keeper.storeKey))])) && (exists j int :: 0 <= j && j < pbParamsWLLen(old(cpcParamsDoc(kvHas[kvId(layer(sdk.UnwrapSDKContext(goCtx)), payload(k.Keeper.storeKey))], kvVal[kvId(layer(sdk.UnwrapSDKContext(goCtx)), payload(k.Keeper.storeKey))]))) && pbParamsWLAt(old(cpcParamsDoc(kvHas[kvId(layer(sdk.UnwrapSDKContext(goCtx)), payload(k.Keeper.storeKey))], kvVal[kvId(layer(sdk.UnwrapSDKContext(goCtx)), payload(k.Keeper.storeKey))])), j) == req.Authority))
 //@   ensures[C17.DeployStakingContract_rejected_writes_nothing] !(old(cpcParamsStored(kvHas[kvId(layer(sdk.UnwrapSDKContext(goCtx)), payload(k.Keeper.storeKey))], kvVal[kvId(layer(sdk.UnwrapSDKContext(goCtx)), payload(k.Keeper.storeKey))])) && (exists j int :: 0 <= j && j < pbParamsWLLen(old(cpcParamsDoc(kvHas[kvId(layer(sdk.UnwrapSDKContext(goCtx)), payload(k.Keeper.storeKey))], kvVal[kvId(layer(sdk.UnwrapSDKContext(goCtx)), payload(k.Keeper.storeKey))]))) && pbParamsWLAt(old(cpcParamsDoc(kvHas[kvId(layer(sdk.UnwrapSDKContext(goCtx)), payload(k.Keeper.storeKey))], kvVal[kvId(layer(sdk.UnwrapSDKContext(goCtx)), payload(k.Keeper.storeKey))])), j) == req.Authority)) ==> (err != nil && (kvHas[kvId(layer(sdk.UnwrapSDKContext(goCtx)), payload(k.Keeper.storeKey))] == old(kvHas[kvId(layer(sdk.UnwrapSDKContext(goCtx)), payload(k.Keeper.storeKey))]) && kvVal[kvId(layer(sdk.UnwrapSDKContext(goCtx)), payload(k.Keeper.storeKey))] == old(kvVal[kvId(layer(sdk.UnwrapSDKContext(goCtx)), payload(k.Keeper.storeKey))])) && acctSeq[layer(sdk.UnwrapSDKContext(goCtx))] == old(acctSeq[layer(sdk.UnwrapSDKContext(goCtx))]))
 
+//@ func (k *msgServer) UpdateParams(goCtx context.Context, req *cpctypes.MsgUpdateParams) (res *cpctypes.MsgUpdateParamsResponse, err error)
+//@   requires k != nil && req != nil && k.Keeper.storeKey != nil && k.Keeper.cdc != nil
+//@   modifies kvHas[kvId(layer(sdk.UnwrapSDKContext(goCtx)), payload(k.Keeper.storeKey))], kvVal[kvId(layer(sdk.UnwrapSDKContext(goCtx)), payload(k.Keeper.storeKey))]
+//@   ensures[C17.update_params_no_downgrade] err == nil ==> (old(cpcParamsVersion(kvHas[kvId(layer(sdk.UnwrapSDKContext(goCtx)), payload(k.Keeper.storeKey))], kvVal[kvId(layer(sdk.UnwrapSDKContext(goCtx)), payload(k.Keeper.storeKey))])) <= req.NewParams.ProtocolVersion && cpcParamsVersion(kvHas[kvId(layer(sdk.UnwrapSDKContext(goCtx)), payload(k.Keeper.storeKey))], kvVal[kvId(layer(sdk.UnwrapSDKContext(goCtx)), payload(k.Keeper.storeKey))]) == req.NewParams.ProtocolVersion)
+//@   ensures[C17.update_params_failure_writes_nothing] err != nil ==> (kvHas[kvId(layer(sdk.UnwrapSDKContext(goCtx)), payload(k.Keeper.storeKey))] == old(kvHas[kvId(layer(sdk.UnwrapSDKContext(goCtx)), payload(k.Keeper.storeKey))]) && kvVal[kvId(layer(sdk.UnwrapSDKContext(goCtx)), payload(k.Keeper.storeKey))] == old(kvVal[kvId(layer(sdk.UnwrapSDKContext(goCtx)), payload(k.Keeper.storeKey))]))
+//@   ensures[C17.update_params_frame] (kvHas[kvId(layer(sdk.UnwrapSDKContext(goCtx)), payload(k.Keeper.storeKey))] == old(kvHas[kvId(layer(sdk.UnwrapSDKContext(goCtx)), payload(k.Keeper.storeKey))])[b1(1) := kvHas[kvId(layer(sdk.UnwrapSDKContext(goCtx)), payload(k.Keeper.storeKey))][b1(1)]] && kvVal[kvId(layer(sdk.UnwrapSDKContext(goCtx)), payload(k.Keeper.storeKey))] == old(kvVal[kvId(layer(sdk.UnwrapSDKContext(goCtx)), payload(k.Keeper.storeKey))])[b1(1) := kvVal[kvId(layer(sdk.UnwrapSDKContext(goCtx)), payload(k.Keeper.storeKey))][b1(1)]])
+
+// The contract object of an ERC-20 precompile: built with an EMPTY decode cache (this establishes the cache invariant
+// that every executor requires) and the record it was given.
+//@ func NewErc20CustomPrecompiledContract(metadata cpctypes.CustomPrecompiledContractMeta, keeper Keeper) (c CustomPrecompiledContractI)
+//@   modifies nothing
+//@   ensures[C10.contract_object] typeof(c) == type(*erc20CustomPrecompiledContract) && fresh(payload(c)) && unbox(c, type(*erc20CustomPrecompiledContract)).cacheErc20Metadata == nil && unbox(c, type(*erc20CustomPrecompiledContract)).metadata.TypedMeta == metadata.TypedMeta && unbox(c, type(*erc20CustomPrecompiledContract)).metadata.Name == metadata.Name && unbox(c, type(*erc20CustomPrecompiledContract)).keeper.storeKey == keeper.storeKey && unbox(c, type(*erc20CustomPrecompiledContract)).keeper.bankKeeper == keeper.bankKeeper
+//@   ensures[C10.eleven_methods] len(unbox(c, type(*erc20CustomPrecompiledContract)).executors) == 11
+//@   panics never
+
+// NewCustomPrecompiledContract: a record of type 1 / 2 / 3 gives the ERC-20 / staking / bech32 contract object; any other
+// type panics (no contract object exists for an unknown type).
+//@ func NewCustomPrecompiledContract(metadata cpctypes.CustomPrecompiledContractMeta, keeper Keeper) (c CustomPrecompiledContractI)
+//@   ensures[C17.contract_of_type] (metadata.CustomPrecompiledType == 1 ==> typeof(c) == type(*erc20CustomPrecompiledContract)) && (metadata.CustomPrecompiledType == 2 ==> typeof(c) == type(*stakingCustomPrecompiledContract)) && (metadata.CustomPrecompiledType == 3 ==> typeof(c) == type(*bech32CustomPrecompiledContract))
+//@   ensures[C17.known_types_only] 1 <= metadata.CustomPrecompiledType && metadata.CustomPrecompiledType <= 3
+
